@@ -4,7 +4,7 @@ import vlib
 
 DIRS = [".", "..", "a", "b.ts", "c.d", ".h"]
 FILES = ["A.ts", "b.ts", "c.d.ts", "ts.ts", "posts.ts", ".s.ts", "a", "x.tsx"]
-ODD_FILES = ["a.ts.ts", "x.js.ts", "y.ts.js.ts"]        # stems ending in .ts/.js: outside the proven domain (see DESIGN C08)
+ODD_FILES = ["a.ts.ts", "x.js.ts", "y.ts.js.ts", "chart.js.ts", "x.ts", "chart.ts"]        # stems ending in .ts/.js: outside the proven domain (see DESIGN C08)
 
 
 def rel_paths(max_depth, files):
@@ -32,12 +32,13 @@ def norm_names(cwd, p):
     return out
 
 
-def in_domain(to_names):
+def in_domain(to_names, esm=False):
     f = to_names[-1]
     if not f.endswith(".ts"):
         return False
     stem = f[:-3]
-    return stem != "" and not stem.endswith(".ts") and not stem.endswith(".js")
+    # a stem ending in `.js` is only contradictory when ES-module imports are off (`.js` iff esm); with esm `chart.js.ts` is imported as `chart.js.js`
+    return stem != "" and not stem.endswith(".ts") and (esm or not stem.endswith(".js"))
 
 
 def make_cases(ctx, esm):
@@ -77,7 +78,7 @@ def oracle_cases(cases, real):
             continue
         if fn == tn or tn == fn[:-1][:len(tn)] and len(tn) <= len(fn) - 1:
             continue  # imported path is the importing file itself / an ancestor directory of it: not a file pair
-        if not in_domain(tn) or not fn[-1]:
+        if not in_domain(tn, c["esm"]) or not fn[-1]:
             continue
         qs.append({"op": "oracle_c08", "esm": c["esm"], "dir": fn[:-1], "to": tn, "spec": r["ok"]})
         idx.append(i)
